@@ -241,7 +241,7 @@ def check_cf_interpolate(ctx):
     unit_findings(ctx, I, fi, 'ConvolvedFluxes.interpolate comparisons')
     roundtrip_findings(ctx, h, fi, 'ConvolvedFluxes.interpolate clamp bound and look-up in one unit')
     for args, kwargs, r, node in h.i1d:
-        opts_ = {k_: v_ for k_, v_ in kwargs.items() if k_ != 'axis'}
+        opts_ = {k_: v_ for k_, v_ in kwargs.items() if k_ not in ('axis', 'assume_sorted', 'copy')}          # (the order of the table is part of the value compared above)
         ctx.expect(not opts_, 'AXIS', 'ConvolvedFluxes.interpolate interp1d options', loc(fi, node.lineno), 'scipy defaults: linear, exact at knots, error outside',
                    'non-default options %s change the interpolant or silence out-of-range requests' % sorted(opts_), 'interp1d-options')
     # single aperture: interpreted with the table holding one aperture; every request (inside, above or below) gets the one tabulated value
@@ -339,7 +339,7 @@ def check_sed_interpolate(ctx):
         ctx.expect(okg, 'CFG-7', 'SED.interpolate refuses radii below the table (%s)' % tag, loc(fs), 'raises when any request < table minimum',
                    'no raise guards radii below the smallest aperture (guards: %s)' % seen, 'too-small')
         for args, kwargs, r, node in h.i1d:
-            opts_ = {k_: v_ for k_, v_ in kwargs.items() if k_ != 'axis'}        # the axis is part of the interpolant decided above; kind / bounds / fill change it
+            opts_ = {k_: v_ for k_, v_ in kwargs.items() if k_ not in ('axis', 'assume_sorted', 'copy')}          # (the order of the table is part of the value compared above)        # the axis is part of the interpolant decided above; kind / bounds / fill change it
             ctx.expect(not opts_, 'AXIS', 'SED.interpolate interp1d options (%s)' % tag, loc(fs, node.lineno), 'scipy defaults', 'non-default options %s' % sorted(opts_), 'interp1d-options')
 
     # single aperture: every requested radius gets the one tabulated flux of each wavelength, and nothing is refused
